@@ -137,6 +137,17 @@ CHECKS = {
         note="Trusted: CPython, the twin renderer. Rebuilding kwargs into new dict objects is not observable by value identity and not claimed.",
         technique="exhaustive differential enumeration (contracted program vs bare twin) of decorator stacks, signatures and class shapes on the real code",
         design="3/C14"),
+    "C15": dict(
+        text="Exhaustive product over configurations: 9 sub-processes (interpreter mode normal/-O/-OO x ICONTRACT_SLOW unset/empty/"
+             "non-empty), in each decorator kind (require, ensure, snapshot over an enabled / same-option / missing postcondition, "
+             "invariant) x enabled option (default, True, False, icontract.SLOW) x target kind (function, method, static, class "
+             "method, property, async, class), judged against the table computed from the statement (same object, vars unchanged, "
+             "no condition/capture call, error not validated when disabled; enforced when enabled). Explicitly enabled family-F "
+             "programs, generated messages and reserved-name misuse cases are compared item by item between the three modes.",
+        note="Trusted: CPython's -O semantics, the child script (no assert statements). The seed list of configurations is complete "
+             "for the statement (3 x 3).",
+        technique="exhaustive enumeration of the configuration product in sub-processes, table oracle + cross-mode differential",
+        design="3/C15"),
     "C16": dict(
         text="Exhaustive exploration of family F (all kinds, sync/async, plain/DBC chains of <=3 classes, own and inherited "
              "stacks of pre/post/snapshot/invariant, two decorator layouts, foreign functools.wraps decorators at top/middle/"
